@@ -38,6 +38,25 @@ def finder_for(cid):
     return None
 
 
+# finders that feed untrusted input to the loaders: the real code ending the test process (stack overflow of a runaway
+# recursion, abort on an allocation sized by the input) is itself the violation of C19 ("never panics, aborts or hangs")
+ABORT_IS_WITNESS = {'find_include_cycle', 'find_load_untrusted'}
+
+
+def aborted(name, out):
+    # files a finder wrote and could not remove because the process was aborted
+    import glob
+    for d in glob.glob(os.path.join(os.environ.get('VX_SCRATCH', '/var/tmp'), 'vx_include_cycle_*')):
+        shutil.rmtree(d, ignore_errors=True)
+    if name not in ABORT_IS_WITNESS or 'WITNESS ' in out:
+        return None
+    for pat in ('has overflowed its stack', 'memory allocation of', 'SIGABRT', 'SIGSEGV'):
+        if pat in out:
+            case = [ln for ln in out.splitlines() if ln.startswith('(include case:') or ln.startswith('(document:')]
+            return dict(clause=name, problem='the test process was aborted by the code under test: ' + pat, last_input=(case[-1] if case else 'unknown'))
+    return None
+
+
 def run_finder(name, timeout=900):
     """build the real crate with the hook enabled in a scratch target dir (removed afterwards) and run one finder"""
     cache = os.environ.get('VX_TARGET_CACHE')   # optional: reuse a build directory across runs (matrix runs of the author); default: fresh and removed
@@ -59,6 +78,9 @@ def run_finder(name, timeout=900):
                 return dict(found=True, finder=name, input=json.loads(ln[len('WITNESS '):]), cmd=' '.join(cmd))
             except Exception:
                 return dict(found=True, finder=name, input=ln[len('WITNESS '):], cmd=' '.join(cmd))
+    ab = aborted(name, out)
+    if ab:
+        return dict(found=True, finder=name, input=ab, cmd=' '.join(cmd))
     if 'NO-WITNESS' in out:
         return dict(found=False, completed=True, finder=name, note='finder enumerated its small-input space through the real code without finding a failing input', cmd=' '.join(cmd))
     return dict(found=False, finder=name, note='finder did not run to completion: ' + out[-400:], cmd=' '.join(cmd))
@@ -102,6 +124,10 @@ def run_finders(names, timeout=1800):
                     except Exception:
                         res['input'] = ln[len('WITNESS '):]
                     break
+            ab = aborted(name, txt)
+            if not res['found'] and ab:
+                res['found'] = True
+                res['input'] = ab
             if not res['found'] and 'NO-WITNESS' in txt:
                 res['completed'] = True
             if not res['found'] and not res['completed']:
